@@ -1,15 +1,34 @@
+//! Verification harness for rust-circular-buffer (see /verif/DESIGN.md).
+//! Everything except `alloc_engine` needs the crate's default (`std`) feature set.
+pub mod alloc_engine;
+
+#[cfg(feature = "cb-std")]
 pub mod case;
-pub mod deq;
-pub mod interp;
-mod interp_ops;
-mod interp_views;
-mod interp_iters;
-pub mod model;
-pub mod tracked;
-pub mod gen_enum;
-pub mod props;
-pub mod gen_prop;
-pub mod runner;
-pub mod io_engine;
+#[cfg(feature = "cb-std")]
 pub mod cmp_engine;
+#[cfg(feature = "cb-std")]
+pub mod deq;
+#[cfg(feature = "cb-std")]
+pub mod gen_enum;
+#[cfg(feature = "cb-std")]
+pub mod gen_prop;
+#[cfg(feature = "cb-std")]
+pub mod interp;
+#[cfg(feature = "cb-std")]
+mod interp_iters;
+#[cfg(feature = "cb-std")]
+mod interp_ops;
+#[cfg(feature = "cb-std")]
+mod interp_views;
+#[cfg(feature = "cb-std")]
+pub mod io_engine;
+#[cfg(feature = "cb-std")]
+pub mod model;
+#[cfg(feature = "cb-std")]
+pub mod props;
+#[cfg(feature = "cb-std")]
+pub mod runner;
+#[cfg(feature = "cb-std")]
+pub mod tracked;
+#[cfg(feature = "cb-std")]
 pub mod zst_engine;
